@@ -16,27 +16,12 @@ ASSUMPTIONS = ["on a non-ok status the destination content is unspecified; statu
 
 def scripts(rng, tier, n=None):
     out = []
-    n = n or (21 if tier == "quick" else 210)
+    n = n or (20 if tier == "quick" else 210)
     for k in range(n):
         ssrc = rng.randrange(2, 1 << 32)
-        p = rand_policy(rng, ssrc=ssrc, valid=True)
+        p, ext_p = strat_policy(rng, k, ssrc=ssrc, valid=True)
         aead = p.rtp[0] in (GCM128, GCM256)
-        # stratified: every run visits each class of policy whose buffer handling has a code path of its own (a purely random
-        # draw of 14 policies left some of them out for some seeds, and two seeded changes went unnoticed)
-        klass = k % 7
-        ext_p = 0.5
-        if klass == 1:
-            p.rtp = p.rtp[:5] + (0,); p.rtcp = p.rtcp[:5] + (rng.choice([0, 2]),)      # no service at all: pure copies
-        elif klass == 2:
-            p.rtp = p.rtp[:5] + (2,); p.rtcp = p.rtcp[:5] + (2,)                        # authentication only
-        elif klass == 3 and not aead:
-            # tag length configured but authentication service not requested
-            p.rtp = p.rtp[:3] + (20, 10, rng.choice([1, 0]))
-        elif klass == 4:
-            p.cryptex, p.enc_xtn, ext_p = True, b"", 0.9                                  # cryptex alone, packets with extensions
-        elif klass == 5:
-            p.cryptex, ext_p = False, 0.9                                                 # RFC 6904 alone
-            p.enc_xtn = p.enc_xtn or bytes(rng.sample(range(1, 15), 2))
+        klass = k % 10
         if k % 5 == 4 and klass not in (1, 2, 4, 5):
             # the library accepts policies that ask for cryptex and RFC 6904 encryption together
             p.cryptex = True
